@@ -7,6 +7,8 @@ ALL="C01 C02 C03 C04 C05 C06 C07 C08 C09 C10 C11 C12 C13 C14 C15 C16 C17 C18"
 [ "$MODE" = scratch ] && /verif/tools/mut_env.sh sync
 for ID in $IDS; do
   DST=/verif/seeded/$ID
+  # FOCUS=1: only the checks listed for the seed in seeded/focus.txt (its own property + those that caught it before)
+  if [ -n "${FOCUS:-}" ]; then ALL=$(grep "^$ID " /verif/seeded/focus.txt | cut -d' ' -f2-); [ -z "$ALL" ] && ALL=${ID%%-*}; fi
   if [ "$MODE" = repo ]; then /verif/tools/run_mutant.sh "$DST/patch.diff" $ALL > "$DST/checks.txt" 2>&1
   else /verif/tools/mut_env.sh run "$DST/patch.diff" $ALL > "$DST/checks.txt" 2>&1; fi
   CAUGHT=$(grep "exit=1" "$DST/checks.txt" | awk '{print $1}' | tr '\n' ' ')
@@ -21,7 +23,7 @@ meta={"seed":sid,"breaks_property":sid.split('-')[0],
  "needs_to_manifest":"see notes.md (author's description of the required sequence / schedule / input)",
  "verified_by_me":verj,
  "what_i_ran":["tools/verify_seed.sh (scratch worktree outside /repo and /verif: patch applies, repository suite 226 passed with the change, demo fails with the change and passes without it)",
-               ("tools/run_mutant.sh patch.diff C01..C18: git -C /repo apply, every quick check, git -C /repo checkout -- ." if mode=="repo" else "tools/mut_env.sh run patch.diff C01..C18: every quick check of the committed machinery against a scratch worktree of /repo with the patch applied")],
+               ("tools/run_mutant.sh patch.diff <checks>: git -C /repo apply, the quick checks listed in checks.txt, git -C /repo checkout -- ." if mode=="repo" else "tools/mut_env.sh run patch.diff <checks>: the quick checks listed in checks.txt, run by the machinery in /verif against a scratch worktree of /repo with the patch applied")],
  "caught_by_quick_checks":caught.split()}
 json.dump(meta,open(dst+'/meta.json','w'),indent=1)
 print(sid,"caught by:",caught)
